@@ -400,7 +400,14 @@ pub mod details {
                     Ordering::Acquire,
                 ) {
                     Ok(_) => break,
-                    Err(v) => read_position = v,
+                    Err(v) => {
+                        // the producer took the element; when it took the last one (only
+                        // possible with a capacity of zero) there is nothing left to pop
+                        if v == self.write_position.load(Ordering::Acquire) {
+                            return None;
+                        }
+                        read_position = v
+                    }
                 }
             }
 
